@@ -20,7 +20,7 @@ typedef t_int t_word; typedef t_uint t_uword; typedef t_long t_lword; typedef t_
 typedef t_uint t_u32; typedef t_int t_i32; typedef t_ulong t_u64; typedef t_long t_i64;
 typedef t_ulong t_size; typedef t_long t_ptrdiff;
 /* wide ghost types for exact specification arithmetic */
-typedef __CPROVER_bitvector[4*OSMT_W+4] t_int128; typedef unsigned __CPROVER_bitvector[4*OSMT_W+4] t_uint128;
+typedef __CPROVER_bitvector[4*OSMT_W+12] t_int128; typedef unsigned __CPROVER_bitvector[4*OSMT_W+12] t_uint128;
 #define OSMT_LIM_INT_MAX   ((t_int)((((t_long)1) << (OSMT_W-1)) - 1))
 #define OSMT_LIM_INT_MIN   ((t_int)(-(((t_long)1) << (OSMT_W-1))))
 #define OSMT_LIM_UINT_MAX  ((t_uint)((((t_ulong)1) << OSMT_W) - 1))
